@@ -1,7 +1,6 @@
 package checks
 
 import (
-	"bytes"
 	"fmt"
 	"net/netip"
 	"sort"
@@ -281,7 +280,7 @@ func (o *c03Oracle) asymmetricResponse(target, peer *rig.AgentH) bool {
 	if len(txs) == 0 {
 		return false
 	}
-	sort.Slice(txs, func(i, j int) bool { return bytes.Compare(txs[i][:], txs[j][:]) < 0 })
+	sort.Slice(txs, func(i, j int) bool { return side.Sent[txs[i]].Order < side.Sent[txs[j]].Order })
 	id := txs[c.T.Choose(len(txs), "asymtx")]
 	req := side.Sent[id]
 	var others []netip.AddrPort
